@@ -90,7 +90,9 @@ def channels(tier):
           "session:siblings-settings", "rest:siblings-settings",
           # the scenario's own runspecs (not the model object's) define the grid: first run of each format, and twice in a row
           "scenario-specs:batch:df", "scenario-specs:batch:dict", "scenario-specs:batch:json", "scenario-specs:batch:df-twice",
-          "scenario-specs:rest:run"]
+          "scenario-specs:rest:run",
+          # only some equations are requested (the stock and the constants, not the flow between them), settings at a step
+          "subset:session:settings@2", "subset:session:settings@1"]
     return ch
 
 
@@ -151,6 +153,25 @@ def run_channel(spec, channel, mode, env=None):
             if fmt == "json":
                 r = scen.loads(r)
             return scen.from_dict(r, "sm", "A"), changes, consts
+    if channel.startswith("subset:session:settings@"):
+        at = int(channel.rsplit("@", 1)[1])
+        eqs = ["S", "k", "c"]
+        b, consts = make_bptk(spec, mode, env)
+        b.begin_session(scenarios=["A"], scenario_managers=["sm"], equations=eqs, starttime=start, dt=dt)
+        steps = []
+        for i in range(nlab + 1):
+            st = None
+            if i == at:
+                v = new_c(mode, env, "c_new")
+                st = {"sm": {"A": {"constants": {"c": v}}}}
+                changes.append((at, {"c": v}))
+            r = b.run_step(settings=st)
+            if isinstance(r, dict) and r.get("msg"):
+                break
+            steps.append(scen.from_step(r, "sm", "A", equations=eqs))
+        out = scen.merge_steps(steps)
+        out["_requested"] = eqs
+        return out, changes, consts
     if channel.startswith("after-batch:"):
         prior, channel = "batch", channel[len("after-batch:"):]
     elif channel.startswith("after-session:"):
@@ -314,7 +335,7 @@ def run_channel(spec, channel, mode, env=None):
 
 
 def compare(got, want, pc, timeout_s, numeric=False):
-    for e in scen.EQS:
+    for e in (got.get("_requested") or scen.EQS):
         if got.get(e) is None:
             return "equation %s missing from the results" % e, None
         if "_len" in got[e]:
